@@ -313,7 +313,7 @@ func TestC15(t *testing.T) {
 		r.Sample(fmt.Sprintf("writes:%d", len(m.Writes)), map[string]any{"initial": p.C.Init.Texts(), "prefix": ops, "fault_run_flags": p.C.Flags, "writes": len(m.Writes)})
 		return nil
 	}
-	core.Rapid(r, "plan", r.Pick(160, 5000), gen, enumerate)
+	core.Rapid(r, "plan", r.Pick(120, 5000), gen, enumerate)
 }
 
 // ---- the command line on a native directory in which one artifact cannot be written for real (a directory stands where the
